@@ -64,6 +64,9 @@ structure Cluster (K : Type) where
   obs : List (Obs K)
   /-- `act_obs` as of the last `Cluster::update()` -/
   actObs : Nat
+  /-- `covariance_matrix(i, j)`, 1-based, one row per observation of `obs` (local observations have
+      dimension 1); `0` outside the band.  Never written by the revision; read by `Cluster::activeCov()` -/
+  cov : Nat → Nat → K
 
 structure Net (K : Type) where
   pts : List (Pt K)
@@ -252,22 +255,120 @@ def absTerms (n : Net K) (tol : K) (rhs bh : List K) : List K :=
 
 end abs
 
-/-! ### deletion of the excluded items, and what the adjustment sees -/
+/-! ### homogenisation of the right-hand side and the complete exclusion pipeline -/
 
-/-- the input with the excluded items deleted: coordinate groups made unused lose their status (the
-    point disappears when nothing is left of it), passive observations disappear from their
-    clusters (a cluster disappears when nothing is left of it); all lists are empty again -/
-def delete (n : Net K) : Net K :=
-  let r := revise n
-  { pts := r.pts.filter Pt.active
-    cls := (r.cls.map fun c => { c with obs := c.obs.filter (·.active) }).filter (fun c => !c.obs.isEmpty)
+section hom
+variable [Scalar K]
+
+/-- `LocalNetwork::prepareProjectEquations()` for an observation that is not correlated with any
+    other (a 1×1 block of the Cholesky factor): `C = activeCov()` has the entry `stdev²`;
+    `C /= (m_0_apr_*m_0_apr_)`; `Adj::choldec(C)` leaves `sqrt(C)`; `Adj::forwardSubstitution`
+    divides the entry of `b` by it -/
+def homEntry (m0 s r : K) : K := r / Scalar.sqrt ((s * s) / (m0 * m0))
+
+/-- the member `b` after `prepareProjectEquations()` when no cluster has correlations;
+    `stdevs` = `revised_obs_[k]->stdDev()` -/
+def homDiag (m0 : K) (stdevs rhs : List K) : List K := List.zipWith (homEntry m0) stdevs rhs
+
+/-- `sqrt(weight_obs(k))` = `m_0_apr_ / stdDev()` : the factor by which homogenisation scales the
+    absolute term of an uncorrelated observation -/
+def weightFactor (m0 s : K) : K := m0 / s
+
+/-- what `gama-local` does about exclusions before it adjusts: revision, then (once)
+    `remove_huge_abs_terms()`, whose `update(Observations)` makes the next `project_equations()`
+    call `revision_observations()` again (the points are not revised again: `tst_redbod_` stays) -/
+def exclude (n : Net K) (tol : K) (rhs bh : List K) : Net K :=
+  revisionObservations (removeHuge (revise n) tol rhs bh)
+
+end hom
+
+/-! ### deletion of the excluded items (defined on the INPUT, without running the revision) -/
+
+/-- which items a run left out, by position: per point its xy / z group, per cluster per observation -/
+structure Excluded where
+  xy : List Bool
+  z : List Bool
+  obs : List (List Bool)
+deriving DecidableEq, Repr
+
+/-- read off a state of the network: groups that do not take part, passive observations -/
+def excluded (r : Net K) : Excluded :=
+  { xy := r.pts.map (fun p => !p.sxy.active)
+    z := r.pts.map (fun p => !p.sz.active)
+    obs := r.cls.map (fun c => c.obs.map (fun o => !o.active)) }
+
+/-- drop the flagged entries of a list -/
+def dropFlagged {α : Type} (l : List α) (fl : List Bool) : List α :=
+  ((l.zip fl).filter (fun q => !q.2)).map (·.1)
+
+/-- the 1-based positions that are not flagged -/
+def keptIdx (fl : List Bool) : List Nat := dropFlagged (List.range' 1 fl.length) fl
+
+/-- principal sub-matrix on the rows/columns `idx` (1-based in, 1-based out) -/
+def subCov (cov : Nat → Nat → K) (idx : List Nat) : Nat → Nat → K :=
+  fun i j => cov (idx.getD (i - 1) 0) (idx.getD (j - 1) 0)
+
+/-- a point whose excluded groups lose their status -/
+def deletePt (p : Pt K) (exy ez : Bool) : Pt K :=
+  { p with sxy := if exy then .unused else p.sxy
+           sz := if ez then .unused else p.sz }
+
+/-- a cluster without its excluded observations: the rows of the observation list and the
+    corresponding rows and columns of the covariance matrix go -/
+def deleteCl (c : Cluster K) (fl : List Bool) : Cluster K :=
+  { stand := c.stand
+    obs := dropFlagged c.obs fl
+    actObs := ((dropFlagged c.obs fl).filter (·.active)).length
+    cov := subCov c.cov (keptIdx fl) }
+
+/-- THE INPUT WITH THE EXCLUDED ITEMS DELETED: excluded coordinate groups lose their status, a
+    point with nothing left disappears; excluded observations disappear from their clusters together
+    with their rows/columns of the covariance matrix, a cluster with nothing left disappears; a fresh
+    network (no records, no lists). -/
+def deleteItems (n : Net K) (e : Excluded) : Net K :=
+  { pts := ((n.pts.zip (e.xy.zip e.z)).map (fun q => deletePt q.1 q.2.1 q.2.2)).filter Pt.active
+    cls := ((n.cls.zip e.obs).map (fun q => deleteCl q.1 q.2)).filter (fun c => !c.obs.isEmpty)
     removed := [], undefined := [], revised := [], rejected := []
     pocbod := 0, pocmer := 0 }
+
+/-! ### what the adjustment reads -/
 
 /-- what the linearisation (C05) reads: the points that take part with their statuses and
     coordinates, and per non-empty cluster its kind and its active observations, in order -/
 def activeView (n : Net K) : List (Pt K) × List (Bool × List (Obs K)) :=
   (n.pts.filter Pt.active,
    (n.cls.map fun c => (c.stand, c.obs.filter (·.active))).filter (fun c => !c.2.isEmpty))
+
+/-- `Cluster::activeCov()` as a dense table: rows/columns of the active observations -/
+def covView (cov : Nat → Nat → K) (active : List Bool) : List (List K) :=
+  let idx := keptIdx (active.map (!·))
+  idx.map fun i => idx.map fun j => cov i j
+
+/-- … together with the covariance blocks `prepareProjectEquations()` factors: per non-empty cluster
+    its kind, its active observations and the principal sub-matrix `activeCov()` -/
+def adjustmentView (n : Net K) : List (Pt K) × List (Bool × List (Obs K) × List (List K)) :=
+  (n.pts.filter Pt.active,
+   (n.cls.map fun c => (c.stand, c.obs.filter (·.active), covView c.cov (c.obs.map (·.active)))).filter
+     (fun c => !c.2.1.isEmpty))
+
+/-! ### the shape of `project_equations()` -/
+
+/-- `project_equations()` as a left fold: clusters in order, inside a cluster its active observations
+    in order (`revised_obs_`); one step sees the running state (unknown indices handed out so far, rows
+    and right-hand side so far), a cluster-local state that starts from the cluster kind
+    (`index_orientation(0)`), the observation, and the points `PD[role]` of the roles `LocalRevision`
+    looked up for its type (the generated table) -/
+def assembleCl {σ τ : Type} (step : σ × τ → Obs K → List (Option (Pt K)) → σ × τ) (loc : Bool → τ)
+    (pts : List (Pt K)) (s : σ) (stand : Bool) (os : List (Obs K)) : σ :=
+  (os.foldl (fun st o => step st o ((Gen.requirements o.ty).map fun rf => findPt pts (o.roleId rf.1))) (s, loc stand)).1
+
+def assemble {σ τ : Type} (step : σ × τ → Obs K → List (Option (Pt K)) → σ × τ) (loc : Bool → τ) (init : σ)
+    (n : Net K) : σ :=
+  n.cls.foldl (fun s c => assembleCl step loc n.pts s c.stand (c.obs.filter (·.active))) init
+
+/-- the same fold run on a view -/
+def assembleView {σ τ : Type} (step : σ × τ → Obs K → List (Option (Pt K)) → σ × τ) (loc : Bool → τ) (init : σ)
+    (v : List (Pt K) × List (Bool × List (Obs K))) : σ :=
+  v.2.foldl (fun s c => assembleCl step loc v.1 s c.1 c.2) init
 
 end Gama.Rev
